@@ -60,8 +60,9 @@ def render_manifests():
         shutil.copy(os.path.join(ROOT, "harness", "Cargo.lock.seed"), lock)
 
 
-def build(variant, bins):
-    """Build the given bins of the vh crate for a variant; returns the directory of the binaries."""
+def build(variant, bins, optional=False):
+    """Build the given bins of the vh crate for a variant; returns the directory of the binaries
+    (None if an `optional` build fails)."""
     render_manifests()
     cmd = ["cargo", "build", "--offline", "--quiet", "-p", "vh"]
     for b in bins:
@@ -72,6 +73,10 @@ def build(variant, bins):
                        stderr=subprocess.STDOUT, text=True)
     if r.returncode != 0:
         tail = "\n".join(r.stdout.splitlines()[-60:])
+        if optional:
+            first = next((l for l in r.stdout.splitlines() if l.startswith("error")), "build error")
+            print(f"note: optional explorer {' '.join(bins)} ({variant}) does not build on this tree and is skipped: {first[:200]}")
+            return None
         machinery(f"cargo build failed for variant {variant} bins {bins}:\n{tail}")
     dt = time.time() - t
     if dt > 2:
@@ -167,8 +172,14 @@ def merge_parts(pid, tier, level, parts, start, assumptions=None, extra_cov=None
 def run_rust_check(pid, tier, replay, start, level, plan, timeout=None):
     """plan: list of (variant, bin, extra args). Builds, runs, merges."""
     os.makedirs(os.path.join(TARGET, "parts"), exist_ok=True)
+    # an entry whose extra arguments are ["optional"] is built on its own; if it does not build on
+    # this tree it is skipped (with a note) instead of failing the check
+    optional = [(v, b) for v, b, e in plan if e == ["optional"]]
+    plan = [(v, b, [] if e == ["optional"] else e) for v, b, e in plan]
     by_variant = {}
     for variant, binname, extra in plan:
+        if (variant, binname) in optional:
+            continue
         by_variant.setdefault(variant, set()).add(binname)
     if replay:
         doc = json.load(open(replay))
@@ -198,6 +209,9 @@ def run_rust_check(pid, tier, replay, start, level, plan, timeout=None):
     else:
         for variant, bins in by_variant.items():
             build(variant, sorted(bins))
+    for variant, binname in optional:
+        if not replay and build(variant, [binname], optional=True) is None:
+            plan = [(v, b, e) for v, b, e in plan if (v, b) != (variant, binname)]
     worst = 0
     parts = []
     crashed = []
